@@ -266,8 +266,11 @@ def gen_curve(rng, g, n):
                 out.append(Case(lines, exp, cls, "decode"))
             else:
                 # on failure the point is set to the neutral
-                lines = [T + "decode " + h, T + "set_decode " + h]
-                exp = ["OK N", "OK %s %s %s" % (NOST, g.enc(g.neutral), OKST)]
+                # ... and the receiver of the failed in-place decoding really is the neutral: it is used as an operand
+                Rr = g.rand_point(rng)
+                dr = (g.desc(Rr, rng) if isinstance(g, G.WeierG) else g.desc(Rr))
+                lines = [T + "decode " + h, T + "set_decode >1 " + h, T + "add $1 " + dr, T + "sub %s $1" % dr]
+                exp = ["OK N", "OK %s %s %s" % (NOST, g.enc(g.neutral), OKST), "OK " + g.enc(Rr), "OK " + g.enc(Rr)]
                 out.append(Case(lines, exp, cls, "decode"))
         elif kind == "reps":
             # several representatives of one element encode identically and compare equal
